@@ -288,7 +288,7 @@ def h_retry_receipt(r):
         a["participant"] = gen.jid(r)
     if r.random() < 0.4:
         a["offline"] = r.choice(["0", "1"])
-    return ("receipt", a, [("retry", {"count": str(r.randint(1, 5)), "id": mid, "v": "1", "t": draw(r, "ts")}, [], None),
+    return ("receipt", a, [("retry", {"count": str(r.choice([1, 2, 5, 9, 10, 255, r.randint(1, 1000)])), "id": mid, "v": "1", "t": draw(r, "ts")}, [], None),
                            ("registration", {}, [], gen.blob(r, 4))], None)
 
 
@@ -299,7 +299,7 @@ def h_enc_message(r):
         a["participant"] = gen.jid(r)
     a["offline"] = r.choice(["0", "1"])      # the documented message shape carries the offline flag
     if r.random() < 0.2:
-        a["retry"] = str(r.randint(1, 4))
+        a["retry"] = str(r.choice([1, 2, 4, 9, 10, 255]))
     encs = []
     for typ in r.sample(["pkmsg", "msg", "skmsg"], r.randint(1, 2)):
         ea = {"type": typ, "v": "2"}
